@@ -264,14 +264,28 @@ func mergeUlimit(_ any, o any, p tree.Path) (any, error) {
 
 func mergeIPAMConfig(c any, o any, path tree.Path) (any, error) {
 	var ipamConfigs []any
-	for i, original := range c.([]any) {
+	originals, ok := c.([]any)
+	if !ok {
+		return nil, fmt.Errorf("%s must be a list", path)
+	}
+	overrides, ok := o.([]any)
+	if !ok {
+		return nil, fmt.Errorf("%s must be a list", path)
+	}
+	for i, original := range originals {
 		right, err := convertIntoMapping(original, nil, path.Next(fmt.Sprintf("[%d]", i)))
 		if err != nil {
 			return nil, err
 		}
-		for j, override := range o.([]any) {
+		if err := checkSubnet(right, path.Next(fmt.Sprintf("[%d]", i))); err != nil {
+			return nil, err
+		}
+		for j, override := range overrides {
 			left, err := convertIntoMapping(override, nil, path.Next(fmt.Sprintf("[%d]", j)))
 			if err != nil {
+				return nil, err
+			}
+			if err := checkSubnet(left, path.Next(fmt.Sprintf("[%d]", j))); err != nil {
 				return nil, err
 			}
 			if left["subnet"] != right["subnet"] {
@@ -301,6 +315,16 @@ func mergeIPAMConfig(c any, o any, path tree.Path) (any, error) {
 		}
 	}
 	return ipamConfigs, nil
+}
+
+// checkSubnet rejects an IPAM config whose subnet, if set, is not a string, so that subnets can be compared
+func checkSubnet(config map[string]any, p tree.Path) error {
+	if subnet, ok := config["subnet"]; ok && subnet != nil {
+		if _, ok := subnet.(string); !ok {
+			return fmt.Errorf("%s.subnet must be a string", p)
+		}
+	}
+	return nil
 }
 
 func convertIntoMapping(a any, defaultValue map[string]any, p tree.Path) (map[string]any, error) {
